@@ -166,14 +166,85 @@ def _change_filter(ctx, func, comp, rule):
     atoms = set()
     if form[0] == 'or':
         atoms = set(p[1] for p in form[1] if p[0] == 'atom')
+    target = comp.generators[0].target
+    names = [N.txt(e) for e in target.elts] if isinstance(
+        target, ast.Tuple) and len(target.elts) == 5 else \
+        ['app', 'before', 'exp_before', 'after', 'exp_after']
     want = {
-        N.cmp_atom(ast.Name(id='before'), '!=', ast.Name(id='after')),
-        N.cmp_atom(ast.Name(id='exp_before'), '!=',
-                   ast.Name(id='exp_after')),
+        N.cmp_atom(ast.Name(id=names[1]), '!=', ast.Name(id=names[3])),
+        N.cmp_atom(ast.Name(id=names[2]), '!=', ast.Name(id=names[4])),
     }
     ctx.ob(rule, func, comp, form[0] == 'or' and atoms == want,
            'the change filter keeps tuples whose server or expiry changed: '
            '%s' % N.txt(cond), construct='change filter in %s' % func.name)
+
+
+def _changed_list(ctx, func, name, rule, what):
+    """The list the publication loops range over holds every tuple of this
+    cycle's result whose server or expiry changed (judged on how the list
+    is built, whatever the spelling: comprehension, filter loop with
+    continue, nested ifs)."""
+    parts = K.list_contributions(func, name)
+    construct = 'change filter in %s' % func.name
+
+    def bad(why):
+        ctx.fail(rule, func, None,
+                 'publication ranges over the changed placements (the '
+                 'filtered result of this cycle): %s' % why,
+                 construct=what)
+
+    if len(parts) != 1 or 'other' in parts[0]:
+        return bad('%s is not built by one pass over the result' % name)
+    part = parts[0]
+    doms = part['domains']
+    if len(doms) != 1 or N.txt(doms[0][1]) != 'placement':
+        return bad('%s does not range over `placement`' % name)
+    target = doms[0][0]
+    names, whole = None, set()
+    if isinstance(target, ast.Tuple) and len(target.elts) == 5:
+        names = [N.txt(e) for e in target.elts]
+    elif isinstance(target, ast.Name):
+        whole = {target.id, 'tuple(%s)' % target.id}
+        for sub in K.walk_no_nested(func.node):
+            if isinstance(sub, ast.Assign) and \
+                    N.txt(sub.value) == target.id and \
+                    isinstance(sub.targets[0], ast.Tuple) and \
+                    len(sub.targets[0].elts) == 5:
+                names = [N.txt(e) for e in sub.targets[0].elts]
+    if names is None:
+        return bad('the five positions of a placement tuple are not named')
+    elt = part['elt']
+    ok_elt = elt is None or N.txt(elt) in whole or (
+        isinstance(elt, ast.Tuple) and [N.txt(e) for e in elt.elts] == names)
+    if not ok_elt:
+        return bad('the element kept is not the whole tuple: %s' % N.txt(elt))
+    ctx.ob(rule, func, None, True,
+           'publication ranges over the changed placements (the filtered '
+           'result of this cycle)', construct=what)
+    tests = []
+    for test, outcome in part['conds']:
+        if test is None:
+            tests = None
+            break
+        tests.append(test if outcome else ast.UnaryOp(op=ast.Not(),
+                                                      operand=test))
+    nz = N.Normaliser()
+    atoms, shape = set(), None
+    if tests:
+        expr = tests[0] if len(tests) == 1 else ast.BoolOp(op=ast.And(),
+                                                           values=tests)
+        form = nz.formula(expr)
+        shape = form[0]
+        if form[0] == 'or':
+            atoms = set(p[1] for p in form[1] if p[0] == 'atom')
+    want = {
+        N.cmp_atom(ast.Name(id=names[1]), '!=', ast.Name(id=names[3])),
+        N.cmp_atom(ast.Name(id=names[2]), '!=', ast.Name(id=names[4])),
+    }
+    ctx.ob(rule, func, part['node'], shape == 'or' and atoms == want,
+           'the change filter keeps tuples whose server or expiry changed: '
+           '%s' % (' and '.join(N.txt(t) for t in tests) if tests
+                   else 'not a plain condition'), construct=construct)
 
 
 def _payload(ctx, master):
@@ -293,6 +364,7 @@ def _reschedule(ctx, master):
     nz = N.Normaliser()
     graph, ops = M.record_ops(ctx, func)
     facts = N.must_facts(graph, nz)
+    domains = {}
     for node, op, rec, _call in ops:
         loop = K.enclosing_for(graph, node)
         names = N.for_targets(loop) if loop is not None else set()
@@ -319,21 +391,10 @@ def _reschedule(ctx, master):
                    'the record is created under the new server',
                    construct='put path server = after')
         if loop is not None:
-            fdefs = M.local_defs(func)
-            dom = loop.ast.iter
-            src = fdefs.get(N.txt(dom), [dom])
-            okd = len(src) == 1 and isinstance(src[0], ast.ListComp) and \
-                N.txt(src[0].generators[0].iter) == 'placement' and \
-                len(src[0].generators[0].ifs) == 1
-            ctx.ob('C09.3', func, loop, okd,
-                   'publication ranges over the changed placements (the '
-                   'filtered result of this cycle)',
-                   construct='%s loop domain' % op)
-    for sub in K.walk_no_nested(func.node):
-        if isinstance(sub, ast.ListComp) and \
-                N.txt(sub.generators[0].iter) == 'placement' and \
-                sub.generators[0].ifs:
-            _change_filter(ctx, func, sub, 'C09.3')
+            domains.setdefault(N.txt(loop.ast.iter), []).append(op)
+    for dom, opsof in sorted(domains.items()):
+        _changed_list(ctx, func, dom, 'C09.3',
+                      '%s loop domain' % '/'.join(sorted(set(opsof))))
     src = ast.unparse(func.node)
     ctx.ob('C09.3', func, None, 'placement = self.cell.schedule()' in src,
            'the change list is the result of this cycle',
